@@ -68,7 +68,7 @@ impl<'a> Visitor for V<'a> {
                 }
                 self.st.label("seq:set");
             }
-            (Op::Redecode, CallRes::Ok(_)) | (Op::CloneSwap, CallRes::Ok(_)) | (Op::Reparse { .. }, CallRes::Ok(_)) | (Op::Reserde, CallRes::Ok(_)) => {
+            (Op::Redecode, CallRes::Ok(_)) | (Op::CloneSwap, CallRes::Ok(_)) | (Op::Reparse { .. }, CallRes::Ok(_)) | (Op::Reserde, CallRes::Ok(_)) | (Op::CloneFrom, CallRes::Ok(_)) => {
                 if post.seq != pre.seq {
                     return Err(format!("{d}: sequence number changed from {} to {}", pre.seq, post.seq));
                 }
